@@ -398,6 +398,7 @@ package utreexo
 //@   requires m.TotalRows <= 63 && m.NumLeaves <= pow2(63)
 
 //@ func (m *MapPollard) trimProofPos(proofPos []uint64, numLeaves uint64) (res []uint64)
+//@   pure
 //@   lock: none
 //@   ensures len(res) <= len(proofPos)
 //@   loop 1: invariant 0 <= i && i <= len(proofPos)
@@ -447,12 +448,19 @@ package utreexo
 //@ func (m *MapPollard) Prune(hashes []Hash) (err error)
 //@   acquires W
 //@ func (m *MapPollard) Prove(proveHashes []Hash) (p Proof, err error)
+//@   requires m.TotalRows <= 63
+//@   ensures err == nil ==> len(p.Targets) == len(proveHashes)
+//@   loop 1: invariant len(origTargets) == len(proveHashes)
+//@   loop 3: invariant len(origTargets) == len(proveHashes)
 //@   acquires R
 //@ func (m *MapPollard) GetMissingPositions(origTargets []uint64) (res []uint64)
+//@   requires m.NumLeaves <= pow2(63) && m.TotalRows <= 63
 //@   acquires R
 //@ func (m *MapPollard) GetRoots() (res []Hash)
+//@   requires m.TotalRows <= 63
 //@   acquires R
 //@ func (m *MapPollard) GetHash(pos uint64) (res Hash)
+//@   requires m.TotalRows <= 63
 //@   acquires R
 //@ func (m *MapPollard) GetLeafPosition(hash Hash) (pos uint64, found bool)
 //@   acquires R
@@ -461,8 +469,11 @@ package utreexo
 //@ func (m *MapPollard) GetTreeRows() (res uint8)
 //@   acquires R
 //@ func (m *MapPollard) GetStump() (res Stump)
+//@   requires m.TotalRows <= 63
 //@   acquires R
 //@ func (m *MapPollard) GetLeafHashPositions(hashes []Hash) (res []uint64)
+//@   ensures len(res) == len(hashes)
+//@   loop 1: invariant len(positions) == len(hashes)
 //@   acquires R
 //@ func (m *MapPollard) Write(w io.Writer) (n int, err error)
 //@   acquires R
@@ -477,8 +488,10 @@ package utreexo
 //@ func (m *MapPollard) ingest(delHashes []Hash, proof Proof) (err error)
 //@   lock: W
 //@ func (m *MapPollard) cached(hashes []Hash) (res bool)
+//@   pure
 //@   lock: R
 //@ func (m *MapPollard) getLeafHashPosition(hash Hash) (pos uint64, found bool)
+//@   pure
 //@   lock: R
 
 // ---------------------------------------------------------------------------
@@ -536,3 +549,10 @@ package utreexo
 //@   requires forall k in 0..len(p.Roots): p.Roots[k] != nil
 //@   ensures err == nil ==> n == int64(ioBytes)
 //@   loop 1: invariant totalBytes == int64(ioBytes)
+
+//@ func (m *MapPollard) niecesPresent(pos uint64) (res bool)
+//@   pure
+//@   lock: R
+//@ func (m *MapPollard) highestPos() (res uint64)
+//@   pure
+//@   lock: R
